@@ -65,6 +65,9 @@ pub(crate) struct ThetaHashTable {
 
     entries: Vec<u64>,
     num_entries: usize,
+
+    // true until the first update is offered (even one that is screened out by theta)
+    is_empty: bool,
 }
 
 impl ThetaHashTable {
@@ -90,6 +93,7 @@ impl ThetaHashTable {
             hash_seed,
             entries,
             num_entries: 0,
+            is_empty: true,
         }
     }
 
@@ -101,6 +105,9 @@ impl ThetaHashTable {
         value.hash(&mut hasher);
         let (h1, _) = hasher.finish128();
         let hash = h1 >> 1; // To make it compatible with Java version
+        // The sketch has seen data from now on, whether or not this hash passes the screen:
+        // a sampling sketch (p < 1) that retains nothing is not an empty sketch.
+        self.is_empty = false;
         if hash >= self.theta {
             return 0; // hash == 0 is reserved for empty slots
         }
@@ -270,6 +277,7 @@ impl ThetaHashTable {
         self.num_entries = 0;
         self.theta = init_theta;
         self.lg_cur_size = init_lg_cur;
+        self.is_empty = true;
     }
 
     /// Get number of entries
@@ -284,7 +292,7 @@ impl ThetaHashTable {
 
     /// Check if empty
     pub fn is_empty(&self) -> bool {
-        self.num_entries == 0
+        self.is_empty
     }
 
     /// Get iterator over entries
